@@ -1,5 +1,6 @@
 import Oracle.Sexp
 import Folang.Sem.Lower
+import Folang.Lemmas.SimRel
 /-
 Streams over the formal semantics (Folang/Sem):
   sem.prog  ((fun name (params) body)…) entry
@@ -25,7 +26,10 @@ def bindOf (b : String) : Option String := if b == "-" || b == "_" then none els
 mutual
 partial def toExpr (e : Sx) : Conv Expr :=
   match e with
-  | .list [.atom "int", n] => pure (.lit (.int ((Sx.asInt n).getD 0)))
+  | .list [.atom "int", n] =>
+    -- a negative literal is written `0 - k` in the program text
+    let k := (Sx.asInt n).getD 0
+    if k < 0 then pure (.prim (.arith "-") [.lit (.int 0), .lit (.int (-k))]) else pure (.lit (.int k))
   | .list [.atom "str", s] => do pure (.lit (.str (← strOf s)))
   | .list [.atom "bool", .atom b] => pure (.lit (.bool (b == "true")))
   | .list [.atom "unit"] => pure (.lit .unit)
@@ -126,12 +130,82 @@ def toProg (funs : List Sx) : Conv Prog := do
 
 def fuel : Nat := 4000
 
+def wfProgB (P : Prog) : Bool := P.all (fun d => wfB d.body)
+
+/-! ### printing Go-core (the format of harness/fcdrv/gocore.go) -/
+
+def sx (items : List Sx) : Sx := .list items
+def at_ (s : String) : Sx := .atom s
+
+def primCallee : Prim → String
+  | .eq => "frt.OpEqual" | .ne => "frt.OpNotEqual" | .not => "frt.OpNot"
+  | .tup => "frt.NewTuple2" | .fst => "frt.Fst" | .snd => "frt.Snd"
+  | .len => "slice.Length" | .head => "slice.Head"
+  | .println => "frt.Println" | .printf1 => "frt.Printf1" | .sprintf1 => "frt.Sprintf1"
+  | .concat => "strings.Concat" | .interp _ => "frt.SInterP"
+  | _ => "?"
+
+def hofCallee (h : String) : String :=
+  if h == "map" then "slice.Map" else if h == "filter" then "slice.Filter" else if h == "fold" then "slice.Fold" else "?"
+
+mutual
+partial def printE : GExpr → Sx
+  | .lit (.int n) => sx [at_ "int", at_ (toString n)]
+  | .lit (.str s) => sx [at_ "str", at_ (Sx.encStr s)]
+  | .lit (.bool b) => sx [at_ "bool", at_ (if b then "true" else "false")]
+  | .lit .unit => sx [at_ "unit"]
+  | .var x => sx [at_ "var", at_ x]
+  | .prim (.arith op) [a, b] => sx [at_ "bin", at_ op, printE a, printE b]
+  | .prim (.mkRec name fields) args =>
+    sx (at_ "rec" :: at_ name :: (fields.zip args).map (fun fa => sx [at_ fa.1, printE fa.2]))
+  | .prim (.fld f) [e] => sx [at_ "fld", printE e, at_ f]
+  | .prim .mkSlice args => sx (at_ "slice" :: args.map printE)
+  | .prim (.ctor _ c) args => sx (at_ "ctor" :: at_ c :: args.map printE)
+  | .prim p args => sx (at_ "call" :: at_ (primCallee p) :: args.map printE)
+  | .and a b => sx [at_ "and", printE a, printE b]
+  | .or a b => sx [at_ "or", printE a, printE b]
+  | .ifElse c t f => sx [at_ "call", at_ "frt.IfElse", printE c, printE t, printE f]
+  | .ifOnly c t => sx [at_ "call", at_ "frt.IfOnly", printE c, printE t]
+  | .callFn f args => sx (at_ "call" :: at_ f :: args.map printE)
+  | .callVal f args => sx (at_ "callv" :: printE f :: args.map printE)
+  | .funcLit ps b => sx [at_ "func", sx (ps.map at_), printB b]
+  | .pipe a f => sx [at_ "call", at_ "frt.Pipe", printE a, printE f]
+  | .hof h f args => sx (at_ "call" :: at_ (hofCallee h) :: printE f :: args.map printE)
+partial def printB : GBody → Sx
+  | .mk ss tail => sx [at_ "body", sx (ss.map printS), printT tail]
+partial def printS : GStmt → Sx
+  | .define x e => sx [at_ "def", at_ x, printE e]
+  | .define2 x y e => sx [at_ "def2", at_ x, at_ y, printE e]
+  | .exec e => sx [at_ "exec", printE e]
+partial def printT : GTail → Sx
+  | .ret e => sx [at_ "ret", printE e]
+  | .switch t cases =>
+    sx (at_ "switch" :: printE t :: cases.map (fun c => match c with
+      | .mk name bind b => sx [at_ "case", at_ name, at_ (bind.getD "-"), printB b]))
+  | .switchS t cases =>
+    sx (at_ "switchS" :: printE t :: cases.map (fun c => match c with
+      | .mk (some p) b => sx [at_ "case", sx [at_ "str", at_ (Sx.encStr p)], printB b]
+      | .mk none b => sx [at_ "default", printB b]))
+end
+
+/-- stream sem.lower: one abstract function → the Go-core of its lowering -/
+def handleLower (payload : List Sx) : Sx :=
+  match payload with
+  | [.list [.atom "fun", .atom n, .list ps, body]] =>
+    match toBody body with
+    | .error why => .list [.atom "outside-fragment", .atom why]
+    | .ok b =>
+      if !wfB b then .list [.atom "outside-fragment", .atom "not-wf"]
+      else sx [at_ "gfun", at_ n, sx (ps.filterMap Sx.asAtom |>.map at_), printB (lowerB b)]
+  | _ => .atom "bad-line"
+
 def handle (payload : List Sx) : Sx :=
   match payload with
   | [.list funs, .atom entry] =>
     match toProg funs with
     | .error why => .list [.atom "outside-fragment", .atom why]
     | .ok P =>
+      if !wfProgB P then .list [.atom "outside-fragment", .atom "not-wf"] else
       match runProg P entry fuel with
       | none => .list [.atom "stuck"]
       | some (tr, _) =>
